@@ -148,6 +148,58 @@ CHECKS.update({
     ),
 })
 
+CHECKS.update({
+    "C12": dict(
+        category="exploration",
+        technique="exhaustive enumeration of a constructor-closed type universe x bounded value domains on the real encoder/decoder (every value round-tripped, prefix-freedom and back-to-back decoding checked over all values)",
+        text=("Every type of a universe closed under the provided constructors (primitives at every width, char, String, (), Duration, PathBuf, "
+              "NonZero*, tuples to arity 4, arrays, Vec/VecDeque/LinkedList/HashMap/HashSet/BTreeMap/BTreeSet, Box/Rc/Arc/Cow/Cell/RefCell/"
+              "Wrapping/Reverse, Option/Result/Bound, ranges, derived generic structs and enums incl. skipped fields) to nesting depth 2 plus "
+              "depth-3 chains (~700 types), and every value of each type's domain (8/16-bit integers and bool exhaustively, wider integers every "
+              "value within +-2 of every 7-bit varint and zigzag boundary, chars at UTF-8 length boundaries, containers of length 0-3): "
+              "decode(encode v) == v consuming exactly the written bytes; no encoding is a prefix of another value's (all values of a type sorted "
+              "by encoding); sliding triples written back to back are read back in sequence."),
+        design_ref="DESIGN.md 4/C12",
+        note="Default feature set only (smallvec/bitvec impls are not compiled offline into the harness); container lengths <= 3 (+ selected long ones); interned handles are covered by C15.",
+    ),
+    "C13": dict(
+        category="exploration",
+        technique="exhaustive enumeration of the C12 type/value universe x all construction histories of small unordered collections on the real StableHash impls with a stream-recording hasher; digests compared across 3 processes",
+        text=("For every type of the C12 universe with a StableHash impl (~650) and every value: a recording StableHasher captures the byte stream; "
+              "over all values of a type sorted by stream no two unequal values feed the same stream (injective framing); every value hashes the "
+              "same as its clone, behind Box/Rc/Arc/&, and after a serialization round trip; unordered collections are built by every insertion "
+              "order of every subset of <= 4 of 5 elements, with/without reserved capacity, random vs fixed hasher state, with insert+remove in the "
+              "history, and must hash identically; String/str/Cow and Vec/slice agree; a digest over all seeded 128-bit hashes is computed in three "
+              "separate processes (different environment) and must be identical."),
+        design_ref="DESIGN.md 4/C13",
+        note="128-bit collisions of SipHash itself are outside the statement; the stream of an unordered collection is modelled as the multiset of its elements' sub-streams (the real combination is commutative by construction and is executed for the equality checks).",
+    ),
+    "C14": dict(
+        category="exploration",
+        technique="exhaustive pairwise comparison over a constructor-closed universe of ~2000 types and all harness query keys on the real STABLE_TYPE_ID / QueryID computation; digests compared across 3 processes; engine aliasing probe",
+        text=("STABLE_TYPE_ID of every type of a constructor-closed universe (29 base types, 34 unary constructors incl. arrays of length 0-3, slices, "
+              "references, raw pointers, smart pointers, cells, ranges, collections, PhantomData and derived generics, 6 binary constructors over "
+              "all ordered pairs of 8 bases, 3-tuples in every order, nestings and re-associations to depth 2) are pairwise distinct; the QueryIDs of "
+              "all 1280 harness query keys are pairwise distinct; an engine populated with 5 query types x 40 keys answers each with its own value; "
+              "the digest of all ids is identical in three separate processes."),
+        design_ref="DESIGN.md 4/C14",
+        note="Same binary in three processes (different environment/ASLR); stability across compiler versions or crate versions is outside what can be explored here.",
+    ),
+    "C15": dict(
+        category="exploration",
+        technique="stateless model checking: deviation-bounded exhaustive DFS over the schedules of every pair of short thread programs on the real Interner (shuttle runtime, own scheduler), invariant evaluated after every operation; exhaustive enumeration of encoded structure shapes",
+        text=("S: every pair of thread programs of length 2 (thorough: length 3 and triples of threads) over {intern A(1|2), intern B(1) (same bytes, other "
+              "type), intern_unsized str, get_from_hash, clone, drop oldest handle, vacuum} on one real Interner with 2 shards, every schedule with "
+              "<= 2 (3) deviations with scheduling points at every shard lock operation and around handle clone/drop; after EVERY operation the "
+              "invariant is evaluated over all live handles of all threads: equal (type, value) => same allocation, content == value, different "
+              "types never share, get_from_hash returns a canonical live handle or None. V: every structure shape (lists of 0-3 handles in every "
+              "value pattern, optional handle, 0-2 texts, repeats in first/reference order) is encoded and decoded with the same and with a fresh "
+              "interner: values, sharing partition, canonicity, consumed bytes."),
+        design_ref="DESIGN.md 4/C15",
+        note="2-3 threads (the statement's 2..16 threads is covered to 3); Arc strong/weak counter operations are scheduling points only at the handle clone/drop granularity (shuttle's Arc is std's).",
+    ),
+})
+
 NOT_YET = {
 }
 
